@@ -90,7 +90,10 @@ class Client:
 
         self.__capabilities: dict[str, str] = {}
         self.__respcode_expr = re.compile(rb"(OK|NO|BYE)\s*(.+)?")
-        self.__error_expr = re.compile(rb'(\([\w/-]+\))?\s*(".+")')
+        self.__respcode_arg_expr = re.compile(
+            rb'\(((?:[^()"\\]|"(?:[^"\\]|\\.)*")*)\)\s*'
+        )
+        self.__quoted_expr = re.compile(rb'"((?:[^"\\]|\\.)*)"\s*')
         self.__size_expr = re.compile(rb"\{(\d+)\+?\}")
         self.__active_expr = re.compile(rb"ACTIVE", re.IGNORECASE)
 
@@ -321,36 +324,36 @@ class Client:
     def __parse_error(self, text: bytes):
         """Parse an error received from the server.
 
-        if text corresponds to a size indication, we grab the
-        remaining content from the server.
-
-        Otherwise, we try to match an error of the form \(\w+\)?\s*".+"
+        The text that follows NO is made of an optional response code
+        between parentheses and an optional human readable string
+        (RFC 5804, section 1.3). If that string is a literal, we grab
+        the remaining content from the server.
 
         On succes, the two public members errcode and errmsg are
         filled with the parsing results.
 
         :param text: the response to parse
         """
+        self.errcode = b""
+        self.errmsg = b""
         if text is None:
             # "NO" without response code nor text
-            self.errcode = b""
-            self.errmsg = b""
+            return
+        m = self.__respcode_arg_expr.match(text)
+        if m is not None:
+            self.errcode = m.group(1)
+            text = text[m.end() :]
+        if not len(text):
             return
         m = self.__size_expr.match(text)
         if m is not None:
-            self.errcode = b""
             # the literal is followed by the CRLF that ends the response
             self.errmsg = self.__read_block(int(m.group(1)) + 2)[:-2]
             return
-
-        m = self.__error_expr.match(text)
+        m = self.__quoted_expr.fullmatch(text)
         if m is None:
             raise Error("Bad error message")
-        if m.group(1) is not None:
-            self.errcode = m.group(1).strip(b"()")
-        else:
-            self.errcode = b""
-        self.errmsg = m.group(2).strip(b'"')
+        self.errmsg = re.sub(rb"\\(.)", rb"\1", m.group(1))
 
     def _plain_authentication(
         self, login: bytes, password: bytes, authz_id: bytes = b""
